@@ -401,7 +401,7 @@ inline std::vector<System<double>> grid_systems(int level) {
         }
     // anisotropy
     for (double e : (level ? std::vector<double>{0.1, 0.01} : std::vector<double>{0.01}))
-        for (int nx : (level ? std::vector<int>{4, 6, 8} : std::vector<int>{6})) {
+        for (int nx : (level ? std::vector<int>{4, 6, 8} : std::vector<int>{4, 6})) {
             std::ostringstream nm; nm << "aniso2d_" << nx << "_eps" << e;
             add(grid_diffusion(nx, nx, 1, coef_mask(COEF_UNIFORM, 1), 1, e, 1), "aniso", nm.str());
             if (level && nx <= 4) { std::ostringstream n3; n3 << "aniso3d_" << nx << "_eps" << e; add(grid_diffusion(nx, nx, nx, coef_mask(COEF_UNIFORM, 1), 1, e, e), "aniso", n3.str()); }
